@@ -112,4 +112,199 @@ theorem Ideal.levels_eq [Inhabited α] (H : α → α → α) (dflt : α) : Idea
   rw [e, Nat.zero_add]
   simp [List.getD, hi]
 
+/-! ## `proof` (C07 completeness) -/
+
+theorem Ideal.xor_one_eq (i : Nat) : i ^^^ 1 = if i % 2 = 0 then i + 1 else i - 1 := by
+  apply Nat.eq_of_testBit_eq
+  intro j
+  rw [Nat.testBit_xor]
+  split
+  · rename_i h
+    cases j with
+    | zero =>
+      have h1 : (i + 1) % 2 = 1 := by omega
+      simp [Nat.testBit_zero, h, h1]
+    | succ j => simp [Nat.testBit_succ]; congr 1; omega
+  · rename_i h
+    cases j with
+    | zero =>
+      have h0 : i % 2 = 1 := by omega
+      have h1 : (i - 1) % 2 = 0 := by omega
+      simp [Nat.testBit_zero, h0, h1]
+    | succ j => simp [Nat.testBit_succ]; congr 1; omega
+
+theorem Ideal.proofAux_length (H : α → α → α) (dflt : α) (t : Ideal α) :
+    ∀ (k l i : Nat), (Ideal.proofAux H dflt t k l i).length = k
+  | 0, _, _ => rfl
+  | k+1, l, i => by
+    simp only [Ideal.proofAux, List.length_cons, Ideal.proofAux_length H dflt t k]
+
+theorem Ideal.proofAux_bits (H : α → α → α) (dflt : α) (t : Ideal α) :
+    ∀ (k l i : Nat), ∀ x ∈ Ideal.proofAux H dflt t k l i, x.2 = 0 ∨ x.2 = 1
+  | 0, _, _ => by simp [Ideal.proofAux]
+  | k+1, l, i => by
+    intro x hx
+    simp only [Ideal.proofAux, List.mem_cons] at hx
+    rcases hx with rfl | hx
+    · simp only; omega
+    · exact Ideal.proofAux_bits H dflt t k _ _ x hx
+
+theorem Ideal.proofAux_decode (H : α → α → α) (dflt : α) (t : Ideal α) :
+    ∀ (k l i : Nat), i < 2 ^ k →
+      (Ideal.proofAux H dflt t k l i).foldr (fun x acc => 2 * acc + x.2) 0 = i
+  | 0, _, i => by
+    intro h
+    simp only [Ideal.proofAux, List.foldr_nil]
+    simp at h; omega
+  | k+1, l, i => by
+    intro h
+    have hp : 2 ^ (k+1) = 2 * 2 ^ k := by rw [Nat.pow_succ]; omega
+    simp only [Ideal.proofAux, List.foldr_cons]
+    rw [Ideal.proofAux_decode H dflt t k (l - 1) (i / 2) (by omega)]
+    omega
+
+theorem Ideal.node_pred (H : α → α → α) (dflt : α) (t : Ideal α) (l j : Nat)
+    (h1 : 1 ≤ l) (h2 : l ≤ t.depth) :
+    t.node H dflt (l - 1) j = H (t.node H dflt l (2 * j)) (t.node H dflt l (2 * j + 1)) := by
+  unfold Ideal.node
+  have e : t.depth - (l - 1) = (t.depth - l) + 1 := by omega
+  rw [e]
+  rfl
+
+theorem Ideal.computeRoot_proofAux (H : α → α → α) (dflt : α) (t : Ideal α) :
+    ∀ (k l i : Nat), k ≤ l → l ≤ t.depth →
+      Ideal.computeRoot H (t.node H dflt l i) (Ideal.proofAux H dflt t k l i) =
+        t.node H dflt (l - k) (i / 2 ^ k)
+  | 0, l, i => by
+    intro _ _
+    simp [Ideal.proofAux, Ideal.computeRoot]
+  | k+1, l, i => by
+    intro hk hl
+    simp only [Ideal.proofAux, Ideal.computeRoot]
+    have hstep : (if i % 2 = 0 then H (t.node H dflt l i) (t.node H dflt l (i ^^^ 1))
+        else H (t.node H dflt l (i ^^^ 1)) (t.node H dflt l i)) = t.node H dflt (l - 1) (i / 2) := by
+      rw [Ideal.node_pred H dflt t l (i / 2) (by omega) hl, Ideal.xor_one_eq]
+      split
+      · rename_i h
+        have e1 : 2 * (i / 2) = i := by omega
+        rw [e1]
+      · rename_i h
+        have e1 : 2 * (i / 2) = i - 1 := by omega
+        have e2 : i - 1 + 1 = i := by omega
+        rw [e1, e2]
+    rw [hstep, Ideal.computeRoot_proofAux H dflt t k (l - 1) (i / 2) (by omega) (by omega)]
+    have e1 : l - 1 - k = l - (k + 1) := by omega
+    have e2 : i / 2 / 2 ^ k = i / 2 ^ (k + 1) := by
+      rw [Nat.div_div_eq_div_mul, Nat.pow_succ, Nat.mul_comm]
+    rw [e1, e2]
+
+theorem Ideal.proof_complete [Inhabited α] (H : α → α → α) (dflt : α) :
+    Ideal.ProofCompleteStmt H dflt := by
+  intro t i hi
+  refine ⟨?_, ?_, ?_, ?_⟩
+  · exact Ideal.proofAux_length H dflt t _ _ _
+  · exact Ideal.proofAux_decode H dflt t _ _ _ hi
+  · exact Ideal.proofAux_bits H dflt t _ _ _
+  · have h := Ideal.computeRoot_proofAux H dflt t t.depth t.depth i (Nat.le_refl _) (Nat.le_refl _)
+    have e : t.node H dflt t.depth i = t.leaf dflt i := by
+      unfold Ideal.node
+      rw [Nat.sub_self]; rfl
+    rw [e] at h
+    unfold Ideal.proof Ideal.root
+    rw [h, Nat.sub_self, Nat.div_eq_of_lt hi]
+
+/-! ## binding and direction flip (C07 soundness as collision extraction) -/
+
+/-- a collision of the two-to-one hash -/
+def Ideal.Collision (H : α → α → α) : Prop :=
+  ∃ a b c d : α, (a, b) ≠ (c, d) ∧ H a b = H c d
+
+theorem Ideal.collision_of_paths (H : α → α → α) :
+    ∀ (p p' : List (α × Nat)) (l l' : α),
+      p.map (·.2) = p'.map (·.2) →
+      Ideal.computeRoot H l p = Ideal.computeRoot H l' p' →
+      (l ≠ l' ∨ p.map (·.1) ≠ p'.map (·.1)) →
+      Ideal.Collision H
+  | [], p', l, l' => by
+    intro hd hr hne
+    cases p' with
+    | nil =>
+      simp only [Ideal.computeRoot] at hr
+      rcases hne with h | h
+      · exact absurd hr h
+      · exact absurd rfl h
+    | cons x r => simp at hd
+  | (s, b) :: r, p', l, l' => by
+    intro hd hr hne
+    cases p' with
+    | nil => simp at hd
+    | cons x r' =>
+      obtain ⟨s', b'⟩ := x
+      simp only [List.map_cons, List.cons.injEq] at hd
+      obtain ⟨hb, hd⟩ := hd
+      subst hb
+      simp only [Ideal.computeRoot] at hr
+      by_cases hstep : (if b = 0 then H l s else H s l) = (if b = 0 then H l' s' else H s' l')
+      · by_cases hls : l = l' ∧ s = s'
+        · obtain ⟨h1, h2⟩ := hls
+          subst h1; subst h2
+          rw [hstep] at hr
+          refine Ideal.collision_of_paths H r r' _ _ hd hr (Or.inr ?_)
+          rcases hne with h | h
+          · exact absurd rfl h
+          · intro hc
+            apply h
+            simp only [List.map_cons, hc]
+        · by_cases hb : b = 0
+          · simp only [hb, if_true] at hstep
+            refine ⟨l, s, l', s', ?_, hstep⟩
+            intro hc
+            simp only [Prod.mk.injEq] at hc
+            exact hls hc
+          · simp only [hb, if_false] at hstep
+            refine ⟨s, l, s', l', ?_, hstep⟩
+            intro hc
+            simp only [Prod.mk.injEq] at hc
+            exact hls ⟨hc.2, hc.1⟩
+      · exact Ideal.collision_of_paths H r r' _ _ hd hr (Or.inl hstep)
+
+theorem Ideal.binding [Inhabited α] (H : α → α → α) : Ideal.BindingStmt H := by
+  intro l l' p p' hd hr hne
+  apply Ideal.collision_of_paths H p p' l l' hd hr
+  by_cases h : l = l'
+  · right
+    intro hc
+    apply hne
+    rw [h, hc]
+  · exact Or.inl h
+
+theorem Ideal.computeRoot_append (H : α → α → α) :
+    ∀ (p q : List (α × Nat)) (l : α),
+      Ideal.computeRoot H l (p ++ q) = Ideal.computeRoot H (Ideal.computeRoot H l p) q
+  | [], q, l => rfl
+  | (s, b) :: r, q, l => by
+    simp only [List.cons_append, Ideal.computeRoot]
+    exact Ideal.computeRoot_append H r q _
+
+theorem Ideal.dir_flip [Inhabited α] (H : α → α → α) : Ideal.DirFlipStmt H := by
+  intro l pre post sib b hb hne hr
+  rw [Ideal.computeRoot_append, Ideal.computeRoot_append] at hr
+  generalize Ideal.computeRoot H l pre = x at hne hr
+  simp only [Ideal.computeRoot] at hr
+  by_cases hstep : (if b = 0 then H x sib else H sib x) = (if 1 - b = 0 then H x sib else H sib x)
+  · rcases hb with hb | hb
+    · subst hb
+      simp only [if_true, Nat.sub_zero, Nat.one_ne_zero, if_false] at hstep
+      refine ⟨x, sib, sib, x, ?_, hstep⟩
+      intro hc
+      simp only [Prod.mk.injEq] at hc
+      exact hne hc.1
+    · subst hb
+      simp only [Nat.one_ne_zero, if_false, Nat.sub_self, if_true] at hstep
+      refine ⟨sib, x, x, sib, ?_, hstep⟩
+      intro hc
+      simp only [Prod.mk.injEq] at hc
+      exact hne hc.2
+  · exact Ideal.collision_of_paths H post post _ _ rfl hr (Or.inl hstep)
+
 end Zk.Tree
